@@ -127,6 +127,16 @@ def gen_cases(rng, tier, scale):
                 exp = bodies[j]
                 break
         cases.append(rcase(f'zc{i}', s, {f'c{j}': l[2] for j, l in enumerate(links)}, entry=4, kind='izchain', exp=exp, tags=['includeZero-chain']))
+    LAY = {'layout': '[{{> title}}]{{> @partial-block}}', 'title': 'default'}
+    for i, (t, d, exp) in enumerate([
+            ('{{#> layout}}{{#if a}}yes{{else}}{{#*inline "title"}}custom{{/inline}}no{{/if}}{{/layout}}', {'a': True}, '[default]yes'),
+            ('{{#> layout}}{{#if a}}yes{{else}}{{#*inline "title"}}custom{{/inline}}no{{/if}}{{/layout}}', {'a': False}, '[default]no'),
+            ('{{#> layout}}{{#unless a}}{{#*inline "title"}}custom{{/inline}}u{{else}}e{{/unless}}{{/layout}}', {'a': True}, '[default]e'),
+            ('{{#> layout}}{{#with o}}w{{else}}{{#*inline "title"}}custom{{/inline}}e{{/with}}{{/layout}}', {'o': {'k': 1}}, '[default]w'),
+            ('{{#> layout}}{{#if a}}1{{else if b}}{{#*inline "title"}}two{{/inline}}2{{else}}{{#*inline "title"}}three{{/inline}}3{{/if}}{{/layout}}', {'a': 1}, '[default]1'),
+            ('{{#> layout}}{{#each l}}{{#if this}}y{{else}}{{#*inline "title"}}custom{{/inline}}n{{/if}}{{/each}}{{/layout}}', {'l': [1, 1]}, '[default]yy'),
+            ('{{#> layout}}{{#*inline "title"}}top{{/inline}}{{#if a}}yes{{/if}}{{/layout}}', {'a': True}, '[top]yes')]):
+        cases.append(rcase(f'deco{i}', t, d, partials=LAY, entry=0, kind='izchain', exp=exp, tags=['decorator-in-unselected-branch']))
     cases.append(rcase('sub0', '{{#if a}}A{{else}}B{{/if}}', {'a': SUBNORMAL}, entry=4, kind='subnormal', tags=['subnormal']))
     # no later body is evaluated: counting probes in every branch
     for i in range(100 * scale):
